@@ -98,6 +98,7 @@ func Walk(node Node, f func(Node) bool) {
 		walkNilable(node.Param, f)
 		walkNilable(node.NestedParam, f)
 		walkNilable(node.Index, f)
+		walkList(node.Modifiers, f)
 		if node.Slice != nil {
 			walkNilable(node.Slice.Offset, f)
 			walkNilable(node.Slice.Length, f)
@@ -150,6 +151,7 @@ func Walk(node Node, f func(Node) bool) {
 	case *TestClause:
 		Walk(node.X, f)
 	case *DeclClause:
+		walkNilable(node.Variant, f)
 		walkList(node.Args, f)
 	case *ArrayExpr:
 		walkList(node.Elems, f)
